@@ -25,7 +25,6 @@ import c07_impl as I
 
 THEOREMS = ["C07_policy_domain_complete", "C07_policy_model_meets_spec", "C07_policy_missing_data",
             "C07_policy_returned_rate", "C07_policy_wavelength", "C07_policy_isotope_wavelength",
-            "C07_code_thermal_cx_pec_refuted",
             "C07_rate2_node_partial", "C07_rate3_node_partial", "C07_beam_node_partial",
             "C07_beam_at_reference_partial", "C07_beam_cx_node_partial", "C07_nonneg", "C07_guard_zero",
             "C07_range_policy", "C07_exec_instance_lawful", "C07_checked_axis_is_axis"]
@@ -647,7 +646,7 @@ def run(ctx):
         specs.append(s)
     n_corpus = len(specs)
     rate_accs = [a for a in I.ACCS if a.name != "wavelength"]
-    n_obj = 156 if quick else 3120
+    n_obj = 156 if quick else 2080
     for k in range(n_obj):
         acc = rate_accs[k % len(rate_accs)]
         s = gen_object(rng, acc, k // len(rate_accs), max_nodes=30 if quick else 60)
@@ -712,6 +711,13 @@ def run(ctx):
             "Eval vm_compute in (failing [cf_ok %s]).\n" % q(cf))
     cfp = ctx.write_gen("cf.v", head)
     res = coqc_many([f for f, _, _ in files] + [cfp], timeout=900)
+    # a coqc process that was killed from outside (observed: kernel OOM killer while 14 checks shared the machine)
+    # leaves no Coq error message; such files are compiled once more, one at a time
+    for f in list(res):
+        ok, out = res[f]
+        if not ok and "Error" not in out:
+            ctx.log("re-running %s (no Coq error in the output of the first attempt)" % os.path.basename(f))
+            res[f] = coqc(f, timeout=900)
     ctx.log('coq cases done')
     okc, outc = res[cfp]
     vc = parse_evals(outc) if okc else []
